@@ -627,3 +627,52 @@ def d5_11(ctx):
         if "bit" in want and "array" in res:
             diffs.append("BOOL member carries an array length")
         ctx.check(not diffs, key, mi, f"{label}: {want}", f"template member record {label} deviates: {diffs}", witness=label)
+
+
+@rule(P, "D5.12", "T-WITNESS", floor=2)
+def d5_12(ctx):
+    """_isolate_user_tags folded on a witness symbol list (sa/miniinterp.py; tag-record construction is a witness): program /
+    routine / task symbols are registered under their names and never listed, module I/O symbols are recorded per module /
+    slot and listed, system symbols (Map:, Cxn:, other names with ':', names starting with '__', symbol-type bit 12) are
+    dropped, everything else is listed once, in order, with the program prefix when a program is given."""
+    from ..miniinterp import Obj, run_function
+
+    lx = _lx(ctx)
+    fn = lx.methods["_isolate_user_tags"]
+    sym = lambda name, st=0x00C4, iid=1: {"tag_name": name, "symbol_type": st, "instance_id": iid}  # noqa: E731
+    symbols = [sym("Program:MainProgram", 0x68, 10), sym("Program:Pump_Ctrl", 0x68, 11), sym("Task:MainTask", 0x70, 12), sym("Task:TaskFast", 0x70, 13), sym("Map:Local", 0x69, 14), sym("Cxn:Standard:abc", 0x7E, 15),
+               sym("Local:1:I", 0x8123, 16), sym("Local:1:O", 0x8124, 17), sym("Drive:I", 0x8125, 18), sym("__hidden", 0x00C4, 19), sym("Sys:Junk:x:y", 0x00C4, 20), sym("Internal", 0x10C4, 21),
+               sym("Counter", 0x00C4, 22), sym("Flags", 0x20D3, 23), sym("Routine:Reset", 0x6D, 24)]
+
+    def hook(call, env, it):
+        if attr_path(call.func) == "self._create_tag":
+            return ("tag", it.ev(call.args[0], env))
+        return UNKNOWN
+
+    for program in (None, "MainProgram"):
+        me = Obj(_info={"programs": {"MainProgram": {"instance_id": 10, "routines": []}} if program else {}, "tasks": {}, "modules": {}}, _cache={"tag_name:id": {}})
+        kind, res = run_function(ctx, lx.module, fn, {"self": me, fn.args.args[1].arg: [dict(s) for s in symbols], fn.args.args[2].arg: program}, call_hook=hook, deep=False)
+        key = ckey(lx.key + "._isolate_user_tags", f"witness:program={program}")
+        if kind == "unknown":
+            ctx.undecided(key, fn, f"_isolate_user_tags not foldable: {res}")
+            continue
+        prefix = f"Program:{program}." if program else ""
+        want_tags = [("tag", prefix + n) for n in ("Local:1:I", "Local:1:O", "Drive:I", "Counter", "Flags")]
+        diffs = []
+        if kind != "return" or res != want_tags:
+            diffs.append(f"listed {res!r} (expected {want_tags!r})")
+        info = me._info
+        want_programs = {"MainProgram", "Pump_Ctrl"}
+        if set(info["programs"]) != want_programs:
+            diffs.append(f"programs {sorted(info['programs'])}")
+        if program and info["programs"].get("MainProgram", {}).get("routines") != ["Reset"]:
+            diffs.append(f"routines {info['programs'].get('MainProgram')}")
+        if set(info["tasks"]) != {"MainTask", "TaskFast"}:
+            diffs.append(f"tasks {sorted(info['tasks'])}")
+        mods = info["modules"]
+        if set(mods) != {"Local", "Drive"} or 1 not in mods.get("Local", {}).get("slots", {}) or mods.get("Drive", {}).get("types") != ["I"]:
+            diffs.append(f"modules {mods}")  # (the per-slot type list is not part of any property and is not judged)
+        ids = me._cache["tag_name:id"]
+        if ids.get(prefix + "Counter") != 22 or len(ids) != 5:
+            diffs.append(f"name->id cache {ids}")
+        ctx.check(not diffs, key, fn, f"symbol list classified as documented (program={program})", f"symbol classification deviates: {diffs[:3]}", program=str(program))
